@@ -396,7 +396,16 @@ def run_routes(case):
                 for p in routes[len(routes) - n_late:]:
                     sim.vl.call(declare, p)
             sim.vl.advance(1.0 + 0.2 * len(routes))
-            if sorted(seen) != sorted(map(tuple, routes)):
+            if conn == 0 and case.get('during'):
+                # one more route declared while connection 0 is up (how often it is registered on THIS connection is not
+                # checked); for the next connection it is a route declared before connecting
+                extra = [net.comp('during'), net.comp('x')]
+                n0 = len(seen)
+                sim.vl.call(declare, extra)
+                sim.vl.advance(1.5)
+                del seen[n0:]
+                routes = routes + [extra]
+            if sorted(seen) != sorted(map(tuple, routes[:-1] if conn == 0 and case.get('during') else routes)):
                 r.bad(f'C17/{fe}/routes/connection-{conn}', f'register commands {seen} for routes {routes}')
                 break
             err = sim.finish()
@@ -410,7 +419,7 @@ def run_routes(case):
     finally:
         sim.close()
     r.key = (fe, len(case['routes']), case['latency'], case.get('open_delay', 0), n_late)
-    r.classes = (fe, f'routes:{len(routes)}', f'declared-while-opening:{n_late}')
+    r.classes = (fe, f'routes:{len(routes)}', f'declared-while-opening:{n_late}') + (('declared-while-connected',) if case.get('during') else ())
     return r
 
 
@@ -419,7 +428,7 @@ def _routes_case():
                                   'routes': st.lists(S.name(1, 3, 8, allow_digest_types=False), min_size=1, max_size=4,
                                                      unique_by=str),
                                   'latency': st.sampled_from([0, 1, 5]), 'open_delay': st.sampled_from([0, 20]),
-                                  'late': st.integers(0, 2)})
+                                  'late': st.integers(0, 2), 'during': st.booleans()})
 
 
 # ---- parse_response round trip -----------------------------------------------------------------------------------------------
